@@ -9,6 +9,16 @@ the laws of the table (acceptance only for the unmutated object and for bytes tr
 algorithm that does not match the key is an error; no third outcome; policy monotone in the opt-in) and exports
 every case.  harness/c05 executes each case with real keys: object encoded and signed with std crypto only,
 mutation applied to real bytes, every entry point of the repository called under recover().
+
+History layer (spec/codec/SigVerifyHist.tla): verification is a FUNCTION of its arguments.  A session is one signed
+object and a sequence of calls presenting it (valid, one mutation, valid again, the same call twice, the opt-in
+toggled); the laws are Function (every call returns what it returns alone), ArgsKept (arguments are not modified)
+and DestFree (nothing depends on what the caller's re-used objects held before).  The spec models the non-functions
+explicitly - Memo(x), an implementation that answers from its last call whenever the arguments agree on everything
+but component x - and TLC records which of them every exported walk exposes; the driver refuses a set of walks that
+does not expose every independently changeable component of every object kind in both directions.  harness/c05
+(TestHistory) replays the sessions on ONE set of caller objects rewritten in place, one session after the other on
+one goroutine; TestHistoryConcurrent runs a sample in parallel and on shared objects under the race detector.
 """
 import json
 
@@ -28,7 +38,51 @@ ASSUME = [
     "(L2048N256 thorough), Ed25519; constructor table additionally RSA 512/2047/4096 moduli, X25519, nil",
     "quick tier: declared-algorithm mutations use representatives of every code class (all supported hashes, 0, 7, 8, "
     "128, 255; signature codes 0..4, 7, 64, 255); thorough tier: every code 0..255",
+    "history layer: sessions are random walks drawn by TLC's simulator (600 of 10 calls quick, 2000 of 14 calls thorough), "
+    "not an enumeration; what they must contain is fixed by the specification (every one-component-coarse one-entry memo "
+    "exposed in both directions per object kind) and checked on every run; quick tier without P-521 keys; algorithm-code "
+    "mutations inside sessions use representatives of the code classes in both tiers",
+    "named clause LeafTimestampAdjusted: ctutil.LogInfo.VerifySCTSignature writes the SCT's timestamp into the caller's "
+    "leaf (documented as 'adjusted for the timestamp in the SCT'); that field at that entry point is exempt from ArgsKept",
+    "ctutil.LeafHash/LeafHashB64 are checked as functions only (equal arguments equal hash, different (certificate, issuer "
+    "key, timestamp) different hash); the value is C04's",
 ]
+
+
+def history_walks(ctx):
+    """TLC draws the sessions, checks the laws of the history on every state and tells which memos each walk exposes."""
+    n = ctx.pick(600, 2000)
+    kinds = ("SCTx509", "SCTprecert", "STH", "LogList", "Blob")
+    walks, exposed, required, count = [], {}, {}, {}
+    seed0 = ctx.seed
+    for attempt in range(3):
+        # (the walks are random: should a draw lack a neighbour pair the specification requires, more are drawn)
+        ctx.seed = seed0 + 7919 * attempt
+        try:
+            r = ctx.tlc("codec", "MCSigVerifyHist", ctx.pick("SigVerifyHist.cfg", "SigVerifyHistFull.cfg"), workers=1,
+                        simulate=n, timeout=3000, java_opts=["-XX:ParallelGCThreads=2"])
+        finally:
+            ctx.seed = seed0
+        got = r.records.get("WALK", [])
+        if len(got) != n:
+            raise Infra("TLC exported %d walks, %d asked for" % (len(got), n))
+        walks += got
+        for w in got:
+            k = w["base"]["kind"]
+            count[k] = count.get(k, 0) + 1
+            exposed.setdefault(k, set()).update(tuple(e) for e in w["exposed"])
+            required.setdefault(k, set()).update(tuple(e) for e in w["required"])
+        missing = {k: sorted(required.get(k, {("no session",)}) - exposed.get(k, set())) for k in kinds}
+        missing = {k: v for k, v in missing.items() if v}
+        if not missing:
+            break
+        ctx.log("walks lack %s; drawing more" % missing)
+    else:
+        raise Infra("the walks do not tell the function from every coarse memo: never exposed: %s" % missing)
+    ctx.log("sessions: %s; every component of every kind exposed as stale accept and as stale reject" % ", ".join(
+        "%s=%d" % kv for kv in sorted(count.items())))
+    ctx.notes["history_exposed"] = {k: sorted("%s/%s" % e for e in v) for k, v in exposed.items()}
+    return [{"base": w["base"], "calls": w["calls"]} for w in walks]
 
 
 def run(ctx, replay=None):
@@ -37,6 +91,15 @@ def run(ctx, replay=None):
         with open(replay) as f:
             rp = json.load(f)
         r = rp.get("replay") or {}
+        if r.get("walk"):
+            # a history finding: the session again, alone (what earlier sessions left behind is not reproduced)
+            path = ctx.write_ndjson("walks.ndjson", [dict(r["walk"], idx=r.get("idx", 0))])
+            if r.get("concurrent"):
+                ctx.go_test("c05", run="TestHistoryConcurrent$", env={"VERIF_WALKS": path}, race=True, timeout=3000,
+                            name="c05-history-concurrent")
+            else:
+                ctx.go_test("c05", run="TestHistory$", env={"VERIF_WALKS": path}, timeout=3000, name="c05-history")
+            return
         case = r.get("case")
         if not case:
             # a bit-flip finding: re-run the flips of that seed up to the failing one
@@ -63,6 +126,18 @@ def run(ctx, replay=None):
     ok = [c for c in cases if c["c"]["kind"] not in ("Ctor", "Create") and c["expect"] == "ok"]
     if not ok or any(c["c"]["mut"]["m"] not in ("none", "value") for c in ok):
         raise Infra("decision table vacuous or accepting a mutated object")
-    # 2. every case against the real code, plus seeded single-bit flips
+    # 2. the history layer: TLC draws sessions over the same table (every session of two calls exhaustively in the
+    #    thorough tier: the laws of the history as invariants)
+    if ctx.thorough():
+        ctx.tlc("codec", "MCSigVerifyHist", "SigVerifyHistPairs.cfg", timeout=3000)
+    walks = history_walks(ctx)
+    # 3. every case against the real code, plus seeded single-bit flips (TestReplay, in parallel); then, in the same
+    #    process but alone on one goroutine, every session on re-used caller objects (TestHistory)
     path = ctx.write_ndjson("cases.ndjson", cases)
-    ctx.go_test("c05", run="TestReplay$", env={"VERIF_CASES": path, "VERIF_FLIPS": ctx.pick(3000, 60000)}, timeout=3000)
+    wpath = ctx.write_ndjson("walks.ndjson", walks)
+    ctx.go_test("c05", run="TestReplay$|TestHistory$", timeout=3000,
+                env={"VERIF_CASES": path, "VERIF_FLIPS": ctx.pick(3000, 60000), "VERIF_WALKS": wpath})
+    # 4. a sample of the sessions in parallel and on shared objects, under the race detector
+    spath = ctx.write_ndjson("walks-sample.ndjson", walks[:ctx.pick(100, 300)])
+    ctx.go_test("c05", run="TestHistoryConcurrent$", env={"VERIF_WALKS": spath}, race=True, timeout=3000,
+                name="c05-history-concurrent")
